@@ -1,4 +1,5 @@
 import Driver.Parse
+import Rio.Model.ZipHdr
 import Rio.Model.Pack
 import Rio.Model.Warehouse
 import Rio.Model.Fetch
@@ -265,6 +266,24 @@ def gitEngine : List String → String
         let lines := ms'.map (fun m => s!"{toHex m.name.path}|{kindTok m.kind}|{m.perms}|{m.uid}|{m.gid}|{m.mtime.sec}|{toHex m.linkname}")
         ",".intercalate (sortBy (fun (x : String) => x.toUTF8.toList) lines)
     | _, _, _, _ => "bad-op"
+  | _ => "bad-op"
+
+/-- `zipowner <extrahex|->` → what `zipFileOwnership` answers for that extra field -/
+def zipOwnerEngine : List String → String
+  | [e] =>
+    match (if e = "-" then some [] else fromHex e) with
+    | some extra => match zipOwnership extra with
+      | .ok u g => s!"ok {u} {g}"
+      | .corrupt => "err rio-ware-corrupt"
+      | .panic => "panic"
+    | none => "bad-op"
+  | _ => "bad-op"
+
+/-- `zipextra <uid> <gid>` → the owner blocks `MetadataToZipHdr` writes -/
+def zipExtraEngine : List String → String
+  | [u, g] => match u.toNat?, g.toNat? with
+    | some u, some g => toHex (ownerExtra u g)
+    | _, _ => "bad-op"
   | _ => "bad-op"
 
 /-- `asm14 <pathhex:isMount:tag;...>` → processing order and the mount rule's verdict -/
